@@ -79,21 +79,242 @@ theorem lt_add_right (a b c : Cap) : lt a b = true → lt (add a c) (add b c) = 
   simp only [lt, List.all_eq_true]
   intro h f hf; have := h f hf; grind [ltFail, add, addOp]
 
-/-- **Operands are never modified**, also under augmented assignment: the class defines no in-place, reflected
-or comparison/truthiness hook (decided over the method list regenerated from the source), so `a += b` /
-`a -= b` rebind to a new value — which is what `augAdd`/`augSub` model — and the operand is left as it was. -/
+/-! ### more algebra -/
+
+/-- `(a - b) + b = a` -/
+theorem sub_add_cancel (a b : Cap) : add (sub a b) b = a := by
+  funext f; simp [sub, add, addOp, subOp]
+
+theorem add_assoc (a b c : Cap) : add (add a b) c = add a (add b c) := by
+  funext f; simp [add, addOp]; omega
+
+theorem add_zero (a : Cap) : add a zero = a := by
+  funext f; simp [add, addOp, zero]
+
+theorem sub_zero (a : Cap) : sub a zero = a := by
+  funext f; simp [sub, subOp, zero]
+
+/-- `a - a` is the all-zero capacity, which prints as the empty string and has no negative field -/
+theorem sub_self (a : Cap) : sub a a = zero := by
+  funext f; simp [sub, subOp, zero]
+
+/-- `a - b = a + (-b)`-style law without negation: `(a - b) - c = a - (b + c)` (allocating twice = allocating the sum) -/
+theorem sub_sub (a b c : Cap) : sub (sub a b) c = sub a (add b c) := by
+  funext f; simp [sub, add, addOp, subOp]; omega
+
+/-- free capacity after a further allocation: `FreeCapacity(total, alloc + x).free = FreeCapacity(total, alloc).free - x` -/
+theorem free_after_allocation (t al x : Cap) : free t (add al x) = sub (free t al) x := by
+  funext f; simp [free, sub, add, freeOp, addOp, subOp]; omega
+
+/-! ### the order "fits within" -/
+
+theorem lt_refl (a : Cap) : lt a a = true := by
+  simp [lt, ltFail]
+
+theorem lt_trans (a b c : Cap) (h1 : lt a b = true) (h2 : lt b c = true) : lt a c = true := by
+  simp only [lt, List.all_eq_true] at *
+  intro f hf; have := h1 f hf; have := h2 f hf; grind [ltFail]
+
+/-- fitting both ways is equality of all observable fields -/
+theorem lt_antisymm (a b : Cap) (h1 : lt a b = true) (h2 : lt b a = true) : eq a b = true := by
+  simp only [lt, eq, List.all_eq_true] at *
+  intro f hf; have := h1 f hf; have := h2 f hf; grind [ltFail, eqFail]
+
+/-- "fits" in terms of the fields: every observable field of `a` is at most that of `b` - for ALL integers, negative included -/
+theorem lt_iff_fields (a b : Cap) : lt a b = true ↔ ∀ f ∈ fields, a f ≤ b f := by
+  simp only [lt, List.all_eq_true]
+  exact forall_congr' fun f => imp_congr_right fun _ => by grind [ltFail]
+
+theorem gt_iff_fields (a b : Cap) : gt a b = true ↔ ∀ f ∈ fields, b f ≤ a f := by
+  simp only [gt, List.all_eq_true]
+  exact forall_congr' fun f => imp_congr_right fun _ => by grind [gtFail]
+
+/-- when `a` does NOT fit in `b`, the fields reported for `b - a` are exactly the fields in which `a` exceeds `b`, and there is one -/
+theorem not_lt_names_deficit (a b : Cap) (h : lt a b = false) :
+    negativeFields (sub b a) ≠ [] ∧ ∀ f, f ∈ negativeFields (sub b a) ↔ f ∈ fields ∧ b f < a f := by
+  refine ⟨?_, fun f => sub_negative_fields b a f⟩
+  intro hnil
+  have := (lt_iff_sub_nonneg a b).mpr hnil
+  simp [this] at h
+
+/-! ### equality -/
+
+theorem eq_trans (a b c : Cap) (h1 : eq a b = true) (h2 : eq b c = true) : eq a c = true := by
+  rw [eq_iff] at *
+  intro f hf; rw [h1 f hf, h2 f hf]
+
+/-- the all-zero capacity equals itself (the value C15-r3-1 broke), and equality with it means every field is zero -/
+theorem eq_zero_zero : eq zero zero = true := eq_refl zero
+
+theorem eq_zero_iff (a : Cap) : eq a zero = true ↔ ∀ f ∈ fields, a f = 0 := by
+  simp [eq_iff, zero]
+
+/-- equal operands give equal results -/
+theorem add_congr (a a' b b' : Cap) (h1 : eq a a' = true) (h2 : eq b b' = true) : eq (add a b) (add a' b') = true := by
+  rw [eq_iff] at *
+  intro f hf; simp [add, h1 f hf, h2 f hf]
+
+theorem sub_congr (a a' b b' : Cap) (h1 : eq a a' = true) (h2 : eq b b' = true) : eq (sub a b) (sub a' b') = true := by
+  rw [eq_iff] at *
+  intro f hf; simp [sub, h1 f hf, h2 f hf]
+
+/-! ### operands are never modified
+
+The class defines no in-place, reflected or comparison/truthiness hook (decided over the list of special methods read from the
+running class), and the translator's probe of `acc = a; acc += b` on the real objects found a new object (`iaddInPlace = false`).
+On that basis: -/
+
 theorem no_operator_hooks : operatorHooks.all (fun m => !methods.contains m) = true := by decide
 
 theorem aug_assign_pure (a b : Cap) :
-    (augAdd a b).1 = add a b ∧ (augAdd a b).2 = a ∧ (augSub a b).1 = sub a b ∧ (augSub a b).2 = a :=
-  ⟨rfl, rfl, rfl, rfl⟩
+    (augAdd a b).1 = add a b ∧ (augAdd a b).2 = a ∧ (augSub a b).1 = sub a b ∧ (augSub a b).2 = a := by
+  simp [augAdd, augSub, iaddInPlace, isubInPlace]
 
 /-- a running total kept with `+=` equals the fold of `+`, and `-=` undoes it -/
 theorem running_total (xs : List Cap) (z : Cap) :
-    xs.foldl (fun acc x => (augAdd acc x).1) z = xs.foldl add z := rfl
+    xs.foldl (fun acc x => (augAdd acc x).1) z = xs.foldl add z := by
+  simp [augAdd, iaddInPlace]
+
+/-- one statement only ever appends to the store -/
+theorem step_prefix (s : St) (st : Stmt) : s.heap <+: (step s st).heap := by
+  cases st with
+  | bin isAdd d x y => exact List.prefix_append _ _
+  | aug isAdd x y =>
+    cases isAdd <;> simp [step, iaddInPlace, isubInPlace, St.bindNew]
+  | free d t a => exact List.prefix_append _ _
+  | alias d x => exact List.prefix_refl _
+
+/-- **No object is ever modified**: whatever sequence of `+ - += -= FreeCapacity =` statements runs, in whatever aliasing
+situation, the store before is a prefix of the store after: every object that existed keeps its value (and its id). -/
+theorem objects_never_modified (p : List Stmt) (s : St) : s.heap <+: (run p s).heap := by
+  induction p generalizing s with
+  | nil => exact List.prefix_refl _
+  | cons st rest ih => exact List.IsPrefix.trans (step_prefix s st) (ih (step s st))
+
+/-- in particular the value of every existing object is the same after any program -/
+theorem object_value_stable (p : List Stmt) (s : St) (k : Nat) (hk : k < s.heap.length) :
+    (run p s).heap[k]? = s.heap[k]? := by
+  obtain ⟨t, ht⟩ := objects_never_modified p s
+  rw [← ht, List.getElem?_append_left hk]
+
+/-- `x += y` while another variable `w` refers to the same object: `w` still sees the old value, `x` sees the sum -/
+theorem aug_leaves_other_holders (s : St) (x y w : Nat) (hx : s.obj x < s.heap.length) (hw : s.obj w = s.obj x) (hne : w ≠ x)
+    (hxl : x < s.env.length) :
+    (step s (.aug true x y)).val w = s.val x ∧ (step s (.aug true x y)).val x = add (s.val x) (s.val y) := by
+  simp only [step, iaddInPlace, Bool.false_eq_true, if_false, if_true, St.bindNew, St.val, St.obj]
+  constructor
+  · have : (s.env.set x s.heap.length).getD w 0 = s.env.getD w 0 := by
+      simp [List.getD_eq_getElem?_getD, List.getElem?_set, Ne.symm hne]
+    rw [this]
+    simp only [St.obj] at hw hx
+    rw [hw, List.getD_eq_getElem?_getD, List.getD_eq_getElem?_getD, List.getElem?_append_left hx]
+  · have : (s.env.set x s.heap.length).getD x 0 = s.heap.length := by
+      simp [List.getD_eq_getElem?_getD, List.getElem?_set, hxl]
+    rw [this]
+    simp [List.getD_eq_getElem?_getD]
+
+/-! ### a result with a negative field is representable and printable
+
+Subtraction is a total function on capacities (no guard, no clamp): `sub_negative_fields` above says which fields of the result
+are negative.  The rendering `toStr` (checked character by character against `str()` in the correspondence) is total as well;
+a negative value is printed as `-` followed by the rendering of its absolute value, and a value with a non-zero field never
+prints as the empty string. -/
+
+theorem fmtComma_neg (v : Int) (h : v < 0) : fmtComma v = "-" ++ fmtComma (-v) := by
+  have h2 : ¬ (-v < 0) := by omega
+  simp only [fmtComma, Int.natAbs_neg, h, h2, if_true, if_false]
+
+theorem toStr_empty_iff (x : Cap) : toStr x = "" ↔ ∀ f ∈ fields, x f = 0 := by
+  constructor
+  · intro h f hf
+    by_cases hz : x f = 0
+    · exact hz
+    · exfalso
+      have hmem : f ∈ fields.filter (fun f => x f != 0) := by simp [List.mem_filter, hf, hz]
+      have hne : (fields.filter (fun f => x f != 0)).isEmpty = false := by
+        cases hl : fields.filter (fun f => x f != 0) with
+        | nil => rw [hl] at hmem; cases hmem
+        | cons a t => rfl
+      simp only [toStr, hne, Bool.false_eq_true, if_false] at h
+      have := congrArg String.length h
+      simp at this
+  · intro h
+    have : fields.filter (fun f => x f != 0) = [] := by
+      simp only [List.filter_eq_nil_iff]; intro f hf; simp [h f hf]
+    simp [toStr, this]
+
+private def grp (n : Nat) (x : Char × Nat) (acc : List Char) : List Char :=
+  if (n - 1 - x.2) % 3 == 0 && (n - 1 - x.2) != 0 then x.1 :: ',' :: acc else x.1 :: acc
+
+private theorem grp_filter (n : Nat) (x : Char × Nat) (acc : List Char) (hx : x.1 ≠ ',') :
+    (grp n x acc).filter (fun c => c != ',') = x.1 :: acc.filter (fun c => c != ',') := by
+  unfold grp
+  split <;> simp [hx]
+
+private theorem group_filter_aux (n : Nat) (l : List (Char × Nat)) (h : ∀ p ∈ l, p.1 ≠ ',') :
+    (l.foldr (grp n) []).filter (fun c => c != ',') = l.map (·.1) := by
+  induction l with
+  | nil => rfl
+  | cons p t ih =>
+    have hp : p.1 ≠ ',' := h p (by simp)
+    have iht := ih (fun q hq => h q (by simp [hq]))
+    simp only [List.foldr_cons, List.map_cons]
+    rw [grp_filter n p _ hp, iht]
+
+private theorem groupDigits_eq (ds : List Char) : groupDigits ds = ds.zipIdx.foldr (grp ds.length) [] := rfl
+
+theorem zipIdx_map_fst (l : List Char) (k : Nat) : (l.zipIdx k).map (·.1) = l := by
+  induction l generalizing k with
+  | nil => rfl
+  | cons a t ih => simp [List.zipIdx_cons, ih]
+
+/-- removing the thousands separators gives back the digits -/
+theorem groupDigits_filter (ds : List Char) (h : ∀ c ∈ ds, c ≠ ',') :
+    (groupDigits ds).filter (fun c => c != ',') = ds := by
+  rw [groupDigits_eq]
+  have := group_filter_aux ds.length ds.zipIdx (by
+    intro p hp
+    have : p.1 ∈ (ds.zipIdx).map (·.1) := List.mem_map_of_mem hp
+    rw [zipIdx_map_fst] at this
+    exact h _ this)
+  rw [zipIdx_map_fst] at this
+  exact this
+
+theorem digits_no_comma (n : Nat) : ∀ c ∈ Nat.toDigits 10 n, c ≠ ',' := by
+  intro c hc hcc
+  subst hcc
+  have := Nat.isDigit_of_mem_toDigits (by decide) (by decide) hc
+  simp at this
+
+/-- **printing loses nothing**: the text of a value with its thousands separators removed is the decimal numeral of the value
+(sign included), for every integer -/
+theorem fmtComma_digits (v : Int) : (fmtComma v).toList.filter (fun c => c != ',') = (toString v).toList := by
+  have hd := groupDigits_filter (Nat.toDigits 10 v.natAbs) (digits_no_comma _)
+  unfold fmtComma
+  cases v with
+  | ofNat n =>
+    have h0 : ¬ ((n : Int) < 0) := by omega
+    have hd' : List.filter (fun c => c != ',') (groupDigits (Nat.toDigits 10 n)) = Nat.toDigits 10 n := by simpa using hd
+    simp [h0, hd', Nat.toList_repr, Int.repr]
+  | negSucc m =>
+    have h0 : Int.negSucc m < 0 := Int.negSucc_lt_zero m
+    have hd' : List.filter (fun c => c != ',') (groupDigits (Nat.toDigits 10 (m + 1))) = Nat.toDigits 10 (m + 1) := by simpa using hd
+    simp [h0, hd', Nat.toList_repr, Int.repr]
+
+/-- a difference with a deficit prints as a non-empty string -/
+theorem deficit_is_printable (a b : Cap) (f : String) (hf : f ∈ negativeFields (sub a b)) : toStr (sub a b) ≠ "" := by
+  intro h
+  have hz := (toStr_empty_iff _).mp h f ((negative_fields_exact _ f).mp hf).1
+  have := ((negative_fields_exact _ f).mp hf).2
+  omega
 
 /-- Non-vacuity: a concrete pair where a fits in b, and one where it does not (negative field named). -/
 example : lt (ofList [1,2,3,4,0,0,0,0]) (ofList [1,2,3,5,0,0,0,0]) = true := by decide
 example : negativeFields (sub (ofList [1,2,3,4,0,0,0,0]) (ofList [1,2,4,4,0,0,0,0])) = ["ram"] := by decide
+example : lt (ofList [1,2,3,4,0,0,0,0]) (ofList [1,2,2,5,0,0,0,0]) = false := by decide
+example : toStr (sub (ofList [1,2,3,4,0,0,0,0]) (ofList [1,2,4,4,0,0,0,0])) = "{ ram: -1 G}" := by decide +kernel
+/-- a two-variable aliasing situation satisfying the hypotheses of `aug_leaves_other_holders` -/
+example : let s : St := { heap := [ofList [1], ofList [2]], env := [0, 1, 0] }
+    s.obj 0 < s.heap.length ∧ s.obj 2 = s.obj 0 ∧ (2 : Nat) ≠ 0 ∧ 0 < s.env.length := by decide
 
 end FimVerif.C15
